@@ -31,6 +31,10 @@ pub fn c05_rejoin() {
     let (mut c, mut rx) = db_client(&cl.nodes[0].dbs, "d");
     process_request("set a 1", &cl.nodes[0].dbs, &mut c);
     process_request("set b 2", &cl.nodes[0].dbs, &mut c);
+    // a user with a permission list exists in d (stored under $$ keys)
+    process_request("use-db d tok", &cl.nodes[0].dbs, &mut admin);
+    process_request("create-user bob bt", &cl.nodes[0].dbs, &mut admin);
+    process_request("set-permissions bob r a*", &cl.nodes[0].dbs, &mut admin);
     vsym::assume(cl.settle(120, false).is_some());
     vsym::assume(same_lines(&live_dump(&cl.nodes[0].dbs), &live_dump(&cl.nodes[1].dbs)));
     // the secondary goes away here; what it would report as its last operation time is the newest record of the log so far
@@ -59,8 +63,19 @@ pub fn c05_rejoin() {
     }
     // it comes back: the primary computes the catch-up messages, every message goes through the joiner's parser and handlers
     let msgs = get_pendding_opps_since(since, &cl.nodes[0].dbs);
-    let mut k = 0;
-    while k < msgs.len() { process_request(&msgs[k], &cl.nodes[1].dbs, &mut cl.links[0].server); k += 1; }
+    if vsym::param("empty_joiner", 0) == 1 {
+        // a node joining with an empty disk: fresh node, authenticated replication session
+        let fresh = mk_cnode("n9", 9, ClusterRole::Secoundary);
+        let (mut session, mut srx) = admin_client(&fresh.dbs);
+        process_request("set-primary n1", &fresh.dbs, &mut session);      // the primary's replication connection announces itself
+        let mut k = 0;
+        while k < msgs.len() { process_request(&msgs[k], &fresh.dbs, &mut session); k += 1; }
+        cl.nodes[1] = fresh;
+    } else {
+        let mut k = 0;
+        while k < msgs.len() { process_request(&msgs[k], &cl.nodes[1].dbs, &mut cl.links[0].server); k += 1; }
+    }
+    if vsym::param("trace", 0) == 1 { for l in live_keys(&cl.nodes[0].dbs).iter() { vsym::tag(&["P:", l].concat()); } for l in live_keys(&cl.nodes[1].dbs).iter() { vsym::tag(&["J:", l].concat()); } for m in msgs.iter() { vsym::tag(&["M:", m].concat()); } }
     vsym::check("resync.same-databases-and-live-keys", same_lines(&live_keys(&cl.nodes[0].dbs), &live_keys(&cl.nodes[1].dbs)));
     // values byte for byte, versions
     let names = ["a", "b", "nk"];
